@@ -582,7 +582,7 @@ pub fn gen_case(seed: u64, shard: u64, run: u64, t: &Tier) -> (Case, Vec<Relatio
     let k = CellKnobs {
         tool_p: 0.7,
         base_p: 0.7,
-        max_env: 4,
+        max_env: if knobs.chance(0.06) { 14 } else { 4 },
         max_sub: t.max_sub,
         limits: LimitKind::None,
         ctor: Ctor::Direct,
@@ -597,7 +597,7 @@ pub fn gen_case(seed: u64, shard: u64, run: u64, t: &Tier) -> (Case, Vec<Relatio
     let mut qs: Vec<[f64; 6]> = (0..n_q).map(|_| gen::gen_posture(&mut w, &None)).collect();
     // pre-decide how many environment bodies there will be so that the safety table can name them
     let anchor = qs[0];
-    cell.safety = gen::gen_safety(&mut w, cell.tool.is_some(), cell.base.is_some(), 4, false, k.sparse);
+    cell.safety = gen::gen_safety(&mut w, cell.tool.is_some(), cell.base.is_some(), k.max_env, false, k.sparse);
     let rels = gen::add_environment(&mut w, &mut cell, &anchor, &k);
     // entries naming environment bodies that do not exist are harmless but pointless: drop them
     let n_env = cell.env.len();
